@@ -24,6 +24,9 @@ def variants():
           {"host": "queued", "family": "plain"},
           {"host": "queued_off", "family": "spied"},
           {"host": "queued_off", "family": "plain", "drive": "queue"}]
+    vs += [{"host": "plain", "family": "plain_same_name"}, {"host": "instrumented", "family": "spied_same_name"},
+           {"host": "queued", "family": "spied_same_name", "drive": "queue", "live_spy": True, "live_trace": True},
+           {"host": "queued_off", "family": "spied_same_name"}]
     for ls in (False, True):
         for lt in (False, True):
             vs.append({"host": "queued", "family": "spied", "live_spy": ls, "live_trace": lt, "drive": "dispatch"})
